@@ -434,25 +434,38 @@ def entry_cases(chk, insts_by, only=None):
                     if quick and cname == "memeff" and rk not in ("mat",):
                         continue
                     sks = ("all", "partial") if (quick or entry not in ("matmul", "solve")) else ("all", "partial", "single")
-                    for sk in sks:
-                        if quick and sk == "partial" and (cname != "default" or rk != "mat") and entry not in ("solve", "inv_quad_logdet"):
+                    # (leaf subset kind, rhs requires grad, left factor requires grad); None = seed-random
+                    combos = [(sk, True if sk == "all" else None, True if sk == "all" else None) for sk in sks]
+                    has_rhs = entry not in ("to_dense", "diagonal", "getitem", "sum", "logdet")
+                    if entry == "solve_left":  # ALL requires_grad subsets of {L, R, operator leaves}
+                        combos = [(lk, r, l) for lk in ("all", "none", "partial") for r in (True, False) for l in (True, False)
+                                  if not (lk == "none" and not r and not l)]
+                    elif has_rhs and (not quick or (cname == "default" and rk == "mat")):
+                        combos += [("none", True, None), ("all", False, None)]  # only the rhs / only the leaves
+                    for sk, rreq, lreq in combos:
+                        if quick and sk == "partial" and (cname != "default" or rk != "mat") and entry not in ("solve", "inv_quad_logdet", "solve_left"):
+                            continue
+                        if quick and entry == "solve_left" and cname == "memeff" and sk == "partial":
                             continue
                         rkl = "vec@batched" if rk == "vec" and inst.nb else rk
-                        cell = f"C07/entry/{entry}/{inst.name}<b={batch}|{mode}>/rhs={rkl}/cfg={cname}/req={sk}"
+                        tag = sk if (rreq is None or (rreq and sk == "all" and lreq in (None, True) and entry != "solve_left")) else \
+                            f"{sk}+R{int(bool(rreq))}" + (f"L{int(bool(lreq))}" if entry == "solve_left" else "")
+                        cell = f"C07/entry/{entry}/{inst.name}<b={batch}|{mode}>/rhs={rkl}/cfg={cname}/req={tag}"
                         if only and not cell.startswith(only):
                             continue
                         payload = {"cell": cell, "seed": chk.seed, "tier": chk.tier}
                         try:
-                            one_entry(chk, inst, entry, rk, cname, memeff, cholsz, sk, cell, payload, settings)
+                            one_entry(chk, inst, entry, rk, cname, memeff, cholsz, sk, cell, payload, settings, rreq, lreq)
                         except Exception as e:  # noqa
                             chk.violation(cell + "/exception", f"{type(e).__name__}: {str(e)[:300]}", payload)
 
 
-def one_entry(chk, inst, entry, rk, cname, memeff, cholsz, sk, cell, payload, settings):
+def one_entry(chk, inst, entry, rk, cname, memeff, cholsz, sk, cell, payload, settings, rreq=None, lreq=None):
     n, m = inst.shape()
     nb = inst.nb
-    req = subset_of(chk.rng, inst.names, sk)
-    rhs_req = chk.rng.random() < 0.7 if sk != "all" else True
+    req = set() if sk == "none" else subset_of(chk.rng, inst.names, sk)
+    rhs_req = (chk.rng.random() < 0.7) if rreq is None else bool(rreq)
+    left_req = rhs_req if lreq is None else bool(lreq)
     names = [k for k in inst.names if k in req]
     aux = {}
     rows = n if entry in ("rmatmul", "t_matmul") else m
@@ -484,13 +497,15 @@ def one_entry(chk, inst, entry, rk, cname, memeff, cholsz, sk, cell, payload, se
     tol = 1e-9 if exact else (2e-4 if iterative else 1e-7)
     if entry == "sqrt_inv_matmul":
         tol = 5e-3
+    if entry in ("root", "root_inv") and cholsz == 0:  # Lanczos (random start vector, FFT noise for Toeplitz): approximate factor
+        tol = 2e-2
 
     def run_side(is_op):
         P = inst.params(req)
         rhs = None if rhs0 is None else rhs0.clone().requires_grad_(rhs_req)
         a2 = dict(aux)
         if "left" in a2:
-            a2["left"] = a2["left"].clone().requires_grad_(rhs_req)
+            a2["left"] = a2["left"].clone().requires_grad_(left_req)
         A = inst.build(P) if is_op else inst.dense(P)
         if entry == "solve":
             a2["outshape"] = None
@@ -507,7 +522,7 @@ def one_entry(chk, inst, entry, rk, cname, memeff, cholsz, sk, cell, payload, se
             out = (rhs.unsqueeze(-2) @ AA).squeeze(-2) if entry == "rmatmul" else (AA @ rhs.unsqueeze(-1)).squeeze(-1)
         else:
             out = entry_fn(entry, A, is_op, rhs, a2)
-        inputs = [P[k] for k in names] + ([rhs] if rhs_req and rhs is not None else []) + ([a2["left"]] if "left" in a2 and rhs_req else [])
+        inputs = [P[k] for k in names] + ([rhs] if rhs_req and rhs is not None else []) + ([a2["left"]] if "left" in a2 and left_req else [])
         return out, inputs, P
 
     with ExitStack() as st:
@@ -558,13 +573,18 @@ def one_entry(chk, inst, entry, rk, cname, memeff, cholsz, sk, cell, payload, se
         chk.count("skipped:forward-shape")
         return
     stochastic_value = entry in ("logdet", "inv_quad_logdet") and cholsz == 0
-    if not stochastic_value and not close(out_i.detach(), out_r.detach(), exact, tol * 10):
+    ftol = 2e-3 if (entry in ("root", "root_inv") and cholsz == 0) else tol * 10  # an inaccurate Lanczos root is a forward question
+    if not stochastic_value and not close(out_i.detach(), out_r.detach(), exact, ftol):
         chk.count("skipped:forward-value")
         chk.count(f"skipped:forward-value:{entry}")
         return
     gr = torch.autograd.grad((out_r * w).sum(), in_r, allow_unused=True) if in_r else []
-    labels = names + (["<rhs>"] if rhs_req and rhs0 is not None else []) + (["<left>"] if "left" in aux and rhs_req else [])
+    labels = names + (["<rhs>"] if rhs_req and rhs0 is not None else []) + (["<left>"] if "left" in aux and left_req else [])
     for lab, a, b, ref_t in zip(labels, gi, gr, in_r):
+        if a is None and b is not None and bool((b != 0).any()):
+            chk.violation(cell + "/grad-none", f"{lab} {tuple(ref_t.shape)} requires grad but backpropagation delivers None; the dense reference "
+                          f"gradient is {b.flatten()[:6].tolist()}", payload)
+            return
         a = zeros_like_none(a, ref_t)
         b = zeros_like_none(b, ref_t)
         if bool(torch.isnan(b).any()):  # the plain-torch reference is not differentiable here (eigh with repeated eigenvalues)
